@@ -842,6 +842,20 @@ pub mod sched {
         point(label, probe);
     }
 
+    pub const IO_POINTS: u8 = 4;
+
+    /// A scheduling point in front of an I/O submission or a blocking wait for a completion.
+    /// Only threads registered with `thread_begin` stop here (the API threads of a harness that
+    /// switched `IO_POINTS` on); pool threads and uncontrolled callers pass through.
+    pub fn io_point(label: &str, probe: &dyn Fn() -> bool) {
+        if !group_on(IO_POINTS) {
+            return;
+        }
+        let Some(s) = current() else { return };
+        let Some(me) = ME.with(|m| m.get()) else { return };
+        park(&s, me, label, 0, Mode::Plain, probe);
+    }
+
     /// Whether `recv` on `rx` would return at once (a message is queued or all senders are gone).
     pub fn recv_ready<T>(rx: &crossbeam_channel::Receiver<T>) -> bool {
         let mut sel = crossbeam_channel::Select::new();
